@@ -8,9 +8,9 @@ CONSTANTS
   IntFormats <- IntFormatsG
   FltFormats <- FltFormatsG
   Lefts = {2, 6, 24}
-  FmtAlphabet = {32, 43, 102, 48, 50, 53, 54, 46}
+  FmtAlphabet = {32, 102, 48, 50, 53, 54, 46}
   FmtLen = 4
-  DestAlphabet = {32, 58, 48, 50, 53, 54, 45}
+  DestAlphabet = {32, 58, 48, 50, 53, 54}
   DestLen = 4
   DestSeps = {58}
   DestMax = {7}
